@@ -19,10 +19,12 @@ import (
 	"io"
 	"mime"
 	"mime/multipart"
+	"net/http/httptest"
 	"net/url"
 	"os"
 	"sort"
 	"strings"
+	"sync"
 	"testing"
 	"time"
 
@@ -285,7 +287,7 @@ func vC19Catalogue(seed int64, ngen int) []*vC19Token {
 	p53, p63, p64 := vC19Pow2(53, 0), vC19Pow2(63, 0), vC19Pow2(64, 0)
 	// --- empty containers and shapes
 	add("empty", "empty", `{}`)
-	add("empty_ws", "whitespace", "{ \t\r\n}")
+	add("empty_ws", "empty_whitespace", "{ \t\r\n}")
 	add("empties", "empty", `{"o":{},"a":[],"s":"","":"empty key","n":{"":{"":[]}},"aa":[[],[[]],{}]}`)
 	add("scalars", "scalars", `{"n":null,"t":true,"f":false,"arr":[null,true,false,0,"0","null"],"s":"true"}`)
 	// --- integers around the interesting boundaries
@@ -534,6 +536,7 @@ type vC19Inst struct {
 	revIDs  []string     // revIDs[i-1] = real revision id of model revision i
 	reads   []*vC19Read
 	dead    bool // first write refused or reserved write accepted: no reads
+	inFeed  bool // the plain changes feed lists the document (replication can only deliver what the feed lists)
 	lastSeq uint64
 }
 
@@ -1099,22 +1102,20 @@ func (e *vC19Env) changesDocs(since uint64, want map[string]bool) vC19Changes {
 }
 
 // ---------------------------------------------------------------------------------------------------------------
-// BLIP (thorough tier): push of raw rev messages, pull of everything
+// BLIP (thorough tier): push of raw rev messages, one-shot pull of everything; revtree sub-protocol (V3)
 
 type vC19Blip struct {
-	t      *testing.T
-	client *BlipTesterClient
-	coll   *BlipTesterCollectionClient
+	t  *testing.T
+	bt *BlipTester
 }
 
 func vC19NewBlip(t *testing.T, rt *RestTester) *vC19Blip {
-	runner := NewBlipTesterClientRunner(t)
-	runner.SetSubprotocols([]string{db.CBMobileReplicationV3.SubprotocolString()})
-	client := runner.NewBlipTesterClientOptsWithRT(rt, &BlipTesterClientOpts{AllowCreationWithoutBlipTesterClientRunner: true})
-	return &vC19Blip{t: t, client: client, coll: runner.SingleCollection(client.id)}
+	rt.CreateUser("c19blip", []string{"*"})
+	bt := NewBlipTesterFromSpecWithRT(rt, &BlipTesterSpec{connectingUsername: "c19blip"})
+	return &vC19Blip{t: t, bt: bt}
 }
 
-// pushRev sends one rev message (revtree protocol) with the exact body bytes and returns an HTTP-like status
+// pushRev sends one rev message with the exact body bytes and returns an HTTP-like status
 func (b *vC19Blip) pushRev(docID, rev string, history []string, body []byte) int {
 	rq := blip.NewRequest()
 	rq.SetProfile(db.MessageRev)
@@ -1124,8 +1125,8 @@ func (b *vC19Blip) pushRev(docID, rev string, history []string, body []byte) int
 		rq.Properties[db.RevMessageHistory] = strings.Join(history, ",")
 	}
 	rq.SetBody(body)
-	b.client.addCollectionProperty(rq)
-	b.client.pushReplication.sendMsg(rq)
+	b.bt.addCollectionProperty(rq)
+	b.bt.Send(rq)
 	resp := rq.Response()
 	if resp.Type() == blip.ErrorType {
 		code := 500
@@ -1135,6 +1136,87 @@ func (b *vC19Blip) pushRev(docID, rev string, history []string, body []byte) int
 	return 201
 }
 
+// pullAll runs a one-shot pull since 0 asking for every revision offered; raw rev bodies by document id
+func (b *vC19Blip) pullAll() map[string][]byte {
+	var mu sync.Mutex
+	got := map[string][]byte{}
+	changesWg, revsWg := sync.WaitGroup{}, sync.WaitGroup{}
+	h := b.bt.blipContext.HandlerForProfile
+	defer func() { delete(h, "changes"); delete(h, "rev"); delete(h, "norev") }()
+	h["changes"] = getChangesHandler(b.t, &changesWg, &revsWg)
+	h["rev"] = func(rq *blip.Message) {
+		defer revsWg.Done()
+		body, err := rq.Body()
+		if err == nil {
+			mu.Lock()
+			got[rq.Properties[db.RevMessageID]] = append([]byte{}, body...)
+			mu.Unlock()
+		}
+		if !rq.NoReply() {
+			rq.Response().SetBody([]byte{})
+		}
+	}
+	h["norev"] = func(rq *blip.Message) { defer revsWg.Done() }
+	changesWg.Add(1)
+	sub := blip.NewRequest()
+	sub.SetProfile(db.MessageSubChanges)
+	sub.Properties[db.SubChangesContinuous] = "false"
+	b.bt.addCollectionProperty(sub)
+	b.bt.Send(sub)
+	changesWg.Wait()
+	revsWg.Wait()
+	return got
+}
+
+// ---------------------------------------------------------------------------------------------------------------
+// replication to another peer (thorough tier): a one-shot push from the gateway under test to a second gateway, and a
+// one-shot pull by a third gateway from the gateway under test
+
+type vC19Peers struct {
+	pushDst *RestTester
+	puller  *RestTester
+}
+
+func vC19NewPeer(t *testing.T, name string, active bool) *RestTester {
+	ctx := base.TestCtx(t)
+	tb := base.GetTestBucket(t)
+	t.Cleanup(func() { tb.Close(ctx) })
+	rt := NewRestTester(t, &RestTesterConfig{CustomTestBucket: tb.NoCloseClone(), SgReplicateEnabled: active,
+		DatabaseConfig: &DatabaseConfig{DbConfig: DbConfig{Name: name}}})
+	t.Cleanup(rt.Close)
+	_ = rt.Bucket()
+	return rt
+}
+
+func vC19PublicURL(t *testing.T, rt *RestTester, user string) string {
+	rt.CreateUser(user, []string{"*"})
+	srv := httptest.NewServer(rt.TestPublicHandler())
+	t.Cleanup(srv.Close)
+	u, _ := url.Parse(srv.URL + "/" + rt.GetDatabase().Name)
+	u.User = url.UserPassword(user, RestTesterDefaultUserPassword)
+	return u.String()
+}
+
+// runOneShot creates a one-shot replication on rt and waits until it has stopped (generous bound; progress based)
+func vC19RunOneShot(t *testing.T, rt *RestTester, id, remote string, dir db.ActiveReplicatorDirection) string {
+	rt.CreateReplication(id, remote, dir, nil, false, db.ConflictResolverDefault, "")
+	deadline := time.Now().Add(10 * time.Minute)
+	last := ""
+	for time.Now().Before(deadline) {
+		r := rt.SendAdminRequest("GET", "/{{.db}}/_replicationStatus/"+id, "")
+		var st db.ReplicationStatus
+		if r.Code == 200 && json.Unmarshal(r.Body.Bytes(), &st) == nil {
+			last = st.Status
+			if st.Status == db.ReplicationStateStopped || st.Status == db.ReplicationStateError {
+				return fmt.Sprintf("%s %.300s", st.Status, r.Body.String())
+			}
+		}
+		time.Sleep(50 * time.Millisecond)
+	}
+	t.Fatalf("VERIF-FATAL replication %s did not finish (last status %q)", id, last)
+	return ""
+}
+
 // ---------------------------------------------------------------------------------------------------------------
 
 func TestVerif_C19_BodyPaths(t *testing.T) {
@@ -1142,31 +1224,39 @@ func TestVerif_C19_BodyPaths(t *testing.T) {
 	vReadJSON(t, "VERIF_BEH", &behs)
 	tw := vOpenTrace(t, "VERIF_TRACE_OUT")
 	defer tw.Close()
+	// same lines with the diagnostic fields (token ids, first difference ...) for the check script; TLC reads the slim file
+	detailFile, err := os.Create(os.Getenv("VERIF_TRACE_OUT") + ".detail")
+	if err != nil {
+		t.Fatalf("VERIF-FATAL cannot create detail file: %v", err)
+	}
+	defer detailFile.Close()
+	detail := json.NewEncoder(detailFile)
 	seed := vSeed()
 	toks := vC19Catalogue(seed, vEnvInt("VERIF_C19_NGEN", 30))
 	if lim := vEnvInt("VERIF_C19_MAXTOK", 0); lim > 0 && lim < len(toks) {
 		toks = toks[:lim]
 	}
 
-	rt := NewRestTester(t, &RestTesterConfig{AutoImport: base.Ptr(false)})
-	defer rt.Close()
-	// conflicting revisions cannot be created through the configuration any more; the repository's own tests keep the
-	// legacy behaviour reachable this way (a database upgraded with conflicts in it)
-	rt.GetDatabase().EnableAllowConflicts(rt.TB())
-	coll, _ := rt.GetSingleTestDatabaseCollectionWithUser()
-	e := &vC19Env{t: t, rt: rt, coll: coll, ds: rt.GetSingleDataStore(), ks: rt.GetSingleKeyspace()}
-	needBlip := false
+	needBlip, needPeers := false, false
 	for _, b := range behs {
 		for _, s := range b.Steps {
 			needBlip = needBlip || s.Wp == "BlipPushRev"
 		}
 		for _, c := range b.Reads {
 			needBlip = needBlip || c.Rp == "BlipPull"
+			needPeers = needPeers || c.Rp == "PeerPush" || c.Rp == "PeerPull"
 		}
 	}
+	rt := NewRestTester(t, &RestTesterConfig{AutoImport: base.Ptr(false), SgReplicateEnabled: needPeers})
+	defer rt.Close()
+	// conflicting revisions cannot be created through the configuration any more; the repository's own tests keep the
+	// legacy behaviour reachable this way (a database upgraded with conflicts in it)
+	rt.GetDatabase().EnableAllowConflicts(rt.TB())
+	coll, _ := rt.GetSingleTestDatabaseCollectionWithUser()
+	e := &vC19Env{t: t, rt: rt, coll: coll, ds: rt.GetSingleDataStore(), ks: rt.GetSingleKeyspace()}
 	if needBlip {
 		e.blip = vC19NewBlip(t, rt)
-		defer e.blip.client.Close()
+		defer e.blip.bt.Close()
 	}
 
 	// ---- instances: behaviour x token assignment
@@ -1243,10 +1333,54 @@ func TestVerif_C19_BodyPaths(t *testing.T) {
 			}
 			ch := e.changesDocs(since, want)
 			for _, in := range insts[lo:hi] {
+				in.inFeed = ch.inFeed[in.docID]
 				e.runReads(in, cache, ch)
 			}
 		}
 		dRead += time.Since(tr0)
+	}
+	// ---- replication phases (thorough): everything written above, after the revision cache was emptied
+	fill := func(rp string, get func(in *vC19Inst) (int, []byte, bool)) {
+		for _, in := range insts {
+			if in.dead || len(in.revIDs) == 0 || !in.inFeed {
+				continue // not listed by the feed: replication cannot be observed for it (recorded as unobserved)
+			}
+			for _, rd := range in.reads {
+				if rd.cell.Rp != rp || rd.done || rd.cell.Rev > len(in.revIDs) {
+					continue
+				}
+				if st, body, ok := get(in); ok {
+					in.judge(rd, st, body, st == 200)
+				}
+			}
+		}
+	}
+	replInfo := vObj{}
+	if needBlip {
+		rt.GetDatabase().FlushRevisionCacheForTest()
+		pulled := e.blip.pullAll()
+		replInfo["blip_pulled"] = len(pulled)
+		fill("BlipPull", func(in *vC19Inst) (int, []byte, bool) {
+			if b, ok := pulled[in.docID]; ok {
+				return 200, b, true
+			}
+			return 404, nil, true // the one-shot pull finished without delivering the document
+		})
+	}
+	if needPeers {
+		rt.GetDatabase().FlushRevisionCacheForTest()
+		dst := vC19NewPeer(t, "c19pushdst", false)
+		replInfo["push"] = vC19RunOneShot(t, rt, "c19push", vC19PublicURL(t, dst, "alice"), db.ActiveReplicatorTypePush)
+		puller := vC19NewPeer(t, "c19puller", true)
+		replInfo["pull"] = vC19RunOneShot(t, puller, "c19pull", vC19PublicURL(t, rt, "bob"), db.ActiveReplicatorTypePull)
+		peerGet := func(peer *RestTester) func(in *vC19Inst) (int, []byte, bool) {
+			return func(in *vC19Inst) (int, []byte, bool) {
+				r := peer.SendAdminRequest("GET", "/{{.keyspace}}/"+in.docID, "")
+				return r.Code, r.Body.Bytes(), true
+			}
+		}
+		fill("PeerPush", peerGet(dst))
+		fill("PeerPull", peerGet(puller))
 	}
 	fmt.Printf("VERIF-C19 %d instances, %d tokens: writes %.1fs reads %.1fs total %.1fs\n", len(insts), len(toks), dWrite.Seconds(), dRead.Seconds(), time.Since(t0).Seconds())
 
@@ -1277,16 +1411,19 @@ func TestVerif_C19_BodyPaths(t *testing.T) {
 			ids = append(ids, tk.ID)
 			classes = append(classes, tk.Class)
 		}
-		tw.Emit(vObj{"a": "Reset", "inst": in.idx, "beh": in.behIdx, "doc": in.docID, "toks": ids, "cls": classes, "wps": wps, "rps": rps})
+		reset := vObj{"a": "Reset", "inst": in.idx, "beh": in.behIdx, "doc": in.docID, "toks": ids, "cls": classes, "wps": wps, "rps": rps}
+		tw.Emit(reset)
+		_ = detail.Encode(reset)
 		nlines++
 		for _, ev := range in.events {
 			tw.Emit(ev)
+			_ = detail.Encode(ev)
 			nlines++
 		}
-		if in.dead || len(in.revIDs) == 0 {
+		if in.dead || len(in.revIDs) == 0 || len(in.reads) == 0 {
 			continue
 		}
-		items, skipped := []vObj{}, []vObj{}
+		items, ditems, skipped := []vObj{}, []vObj{}, []vObj{}
 		for _, rd := range in.reads {
 			if rd.cell.Rev > len(in.revIDs) {
 				continue // belongs to a write that was refused
@@ -1303,16 +1440,20 @@ func TestVerif_C19_BodyPaths(t *testing.T) {
 			if rd.diffP != "" || rd.raw != "" {
 				o["diff"] = vObj{"path": rd.diffP, "want": rd.diffW, "got": rd.diffG, "raw": rd.raw}
 			}
-			items = append(items, o)
+			ditems = append(ditems, o)
+			items = append(items, vObj{"rev": rd.cell.Rev, "rp": rd.cell.Rp, "cache": rd.cell.Cache, "status": rd.status, "valid": rd.valid,
+				"got": rd.got, "extra": rd.extra})
 		}
 		tw.Emit(vObj{"a": "Reads", "items": items, "skipped": skipped})
+		_ = detail.Encode(vObj{"a": "Reads", "items": ditems, "skipped": skipped})
 		nlines++
 	}
 	cat := []vObj{}
 	for _, tk := range toks {
 		cat = append(cat, vObj{"id": tk.ID, "cls": tk.Class, "bytes": len(tk.Text), "text": tk.Text[:min(len(tk.Text), 600)]})
 	}
-	meta, _ := json.Marshal(vObj{"instances": len(insts), "lines": nlines, "tokens": cat, "unobserved": unobserved})
+	meta, _ := json.Marshal(vObj{"instances": len(insts), "lines": nlines, "tokens": cat, "unobserved": unobserved,
+		"timing": vObj{"writes_s": dWrite.Seconds(), "reads_s": dRead.Seconds(), "total_s": time.Since(t0).Seconds()}, "replication": replInfo})
 	if err := os.WriteFile(os.Getenv("VERIF_TRACE_OUT")+".meta", meta, 0o644); err != nil {
 		t.Fatalf("VERIF-FATAL cannot write meta: %v", err)
 	}
